@@ -630,6 +630,41 @@ def S_C04d():
     return bad > 0
 
 
+# ---- to be added to harness/defect_probes.py (before the PROBES = {...} line) once the repairs are committed
+def _c20_truncated_header(fixture, ndrop, strict):
+    """PARRECHeader of a fixture with its last `ndrop` image-definition lines removed, permit_truncated=True"""
+    from nibabel.parrec import PARRECHeader
+    p = os.path.join(os.path.dirname(_nib().__file__), 'tests', 'data', fixture)
+    with open(p) as f:
+        lines = f.read().split('\n')
+    idx = [i for i, l in enumerate(lines) if l and not l.startswith(('#', '.')) and len(l.split()) > 20]
+    drop = set(idx[len(idx) - ndrop:])
+    text = '\n'.join(l for i, l in enumerate(lines) if i not in drop)
+    import warnings
+    with warnings.catch_warnings():
+        warnings.simplefilter('ignore')
+        return PARRECHeader.from_fileobj(io.StringIO(text), permit_truncated=True, strict_sort=strict)
+
+
+def S_C20b():
+    """slice-major multi-echo recording, last 5 records missing: an incomplete volume is not last in key order"""
+    hdr = _c20_truncated_header('T1_3echo_mag_real_imag_phase.PAR', 5, True)
+    return not _complete_only(hdr, hdr.get_sorted_slice_indices()) or hdr.get_data_shape()[3:] != (7,)
+
+
+def S_C20c():
+    """fewer records than one volume: nothing complete to return"""
+    from nibabel.parrec import PARRECError
+    for strict in (True, False):
+        try:
+            hdr = _c20_truncated_header('T2_.PAR', 15, strict)      # 20 records, 10 slices: 5 records left
+        except PARRECError:
+            continue
+        if len(hdr.get_sorted_slice_indices()) > 0:
+            return True
+    return False
+
+
 PROBES = {n: f for n, f in list(globals().items()) if n.startswith('S_C') and callable(f)}
 
 if __name__ == '__main__':
